@@ -8,16 +8,23 @@ use crate::{check, harnesses, reach};
 use koto_parser::StringSlice;
 use std::rc::Rc;
 
-const MAX_BYTES: usize = 3;
-
-/// Any valid UTF-8 string of at most MAX_BYTES bytes
-fn any_string<S: crate::Src>(s: &mut S) -> Option<String> {
-    let bytes = [s.u8(), s.u8(), s.u8()];
-    let len = (s.u8() % (MAX_BYTES as u8 + 1)) as usize;
+/// Any valid UTF-8 string of at most N bytes
+fn any_string_n<const N: usize, S: crate::Src>(s: &mut S) -> Option<String> {
+    let mut bytes = [0u8; N];
+    let mut i = 0;
+    while i < N {
+        bytes[i] = s.u8();
+        i += 1;
+    }
+    let len = (s.u8() % (N as u8 + 1)) as usize;
     match std::str::from_utf8(&bytes[..len]) {
         Ok(text) => Some(text.to_string()),
         Err(_) => None,
     }
+}
+
+fn any_string<S: crate::Src>(s: &mut S) -> Option<String> {
+    any_string_n::<3, S>(s)
 }
 
 harnesses! { strslice;
@@ -76,6 +83,51 @@ fn strslice_u16_conversion(s) {
     check!(s, "bounds below 65536 always convert", converted.is_some());
     if let Some(converted) = converted {
         check!(s, "the converted slice reads the same text", converted.as_str() == slice.as_str());
+    }
+}
+
+
+// ---- thorough tier: the same obligations on strings of up to 4 bytes (4-byte characters occur)
+#[kani::unwind(7)]
+fn strslice4_new_validates(s) {
+    let Some(text) = any_string_n::<4, _>(s) else { return; };
+    let (a, b) = (s.usize(), s.usize());
+    let expected = text.get(a..b).map(|t| t.to_string());
+    let slice = StringSlice::<usize>::new(Rc::new(text).into(), a..b);
+    check!(s, "new returns Some exactly when the bounds select valid UTF-8 inside the string", slice.is_some() == expected.is_some());
+    if let (Some(slice), Some(expected)) = (slice, expected) {
+        check!(s, "the slice reads exactly the selected text", slice.as_str() == expected.as_str());
+    }
+}
+
+#[kani::unwind(7)]
+fn strslice4_with_bounds_stays_inside(s) {
+    let Some(text) = any_string_n::<4, _>(s) else { return; };
+    let (a, b) = (s.usize(), s.usize());
+    let Some(parent) = StringSlice::<usize>::new(Rc::new(text).into(), a..b) else { return; };
+    let parent_text = parent.as_str().to_string();
+    let (c, d) = (s.usize(), s.usize());
+    let expected = parent_text.get(c..d).map(|t| t.to_string());
+    let child = parent.with_bounds(c..d);
+    check!(s, "with_bounds returns Some exactly when the bounds select valid UTF-8 inside the PARENT SLICE", child.is_some() == expected.is_some());
+    if let (Some(child), Some(expected)) = (child, expected) {
+        check!(s, "the child reads exactly the selected part of the parent", child.as_str() == expected.as_str());
+    }
+}
+
+#[kani::unwind(7)]
+fn strslice4_split_stays_inside(s) {
+    let Some(text) = any_string_n::<4, _>(s) else { return; };
+    let (a, b) = (s.usize(), s.usize());
+    let Some(parent) = StringSlice::<usize>::new(Rc::new(text).into(), a..b) else { return; };
+    let parent_text = parent.as_str().to_string();
+    let offset = s.usize();
+    let valid = offset <= parent_text.len() && parent_text.is_char_boundary(offset);
+    let parts = parent.split(offset);
+    check!(s, "split returns Some exactly when the offset is a character boundary inside the PARENT SLICE", parts.is_some() == valid);
+    if let Some((left, right)) = parts {
+        check!(s, "the left part is the text before the offset", left.as_str() == &parent_text[..offset]);
+        check!(s, "the right part is the text from the offset", right.as_str() == &parent_text[offset..]);
     }
 }
 
